@@ -11,6 +11,8 @@ IsItemPath(p) == p # <<>> /\ p[Len(p)] \in {Idx(0), Idx(1), Idx(2), Idx(3)}
 FaultsAt(p) ==
   LET t == p.type
       core == IF IsNN(t) THEN Tail(t) ELSE t IN
+  \* default-resolved field of an attribute-based object: the only failure is the attribute raising KeyError when read
+  IF "dres" \in DOMAIN p THEN {[o |-> "dboom"]} ELSE
   {[o |-> "exc"]}
   \cup (IF ~IsItemPath(p.path) THEN {[o |-> "raise"], [o |-> "raiseLib"]} ELSE {})
   \cup (IF IsNN(t) THEN {[o |-> "null"]} ELSE {})
